@@ -62,6 +62,10 @@ func classify(msg string) string {
 		return "logW"
 	case strings.HasPrefix(msg, "Height should be"):
 		return "height"
+	case msg == "Failed to decode hexseed to bin":
+		return "hexseed-decode"
+	case msg == "Seed is not equal to SeedSize":
+		return "hexseed-size"
 	case msg == "Descriptor size should be 3 bytes":
 		return "desc-size"
 	}
@@ -416,6 +420,20 @@ func execOp(st *state, line string) string {
 				return "fault:error " + err.Error()
 			}
 			st.dkeys[f[1]] = d
+			pk, sk := d.GetPK(), d.GetSK()
+			return fmt.Sprintf("ok pk=%s sk=%s", hx(pk[:]), hx(sk[:]))
+		case f[0] == "dl.newhex" && len(f) == 2:
+			d, err := dilithium.NewDilithiumFromHexSeed(string(unhex(f[1])))
+			if err != nil {
+				return "fault:error " + err.Error()
+			}
+			pk, sk := d.GetPK(), d.GetSK()
+			return fmt.Sprintf("ok pk=%s sk=%s", hx(pk[:]), hx(sk[:]))
+		case f[0] == "dl.newmn" && len(f) == 2:
+			d, err := dilithium.NewDilithiumFromMnemonic(string(unhex(f[1])))
+			if err != nil {
+				return "fault:error " + err.Error()
+			}
 			pk, sk := d.GetPK(), d.GetSK()
 			return fmt.Sprintf("ok pk=%s sk=%s", hx(pk[:]), hx(sk[:]))
 		case f[0] == "dl.sign" && len(f) == 3:
